@@ -61,7 +61,7 @@ SHARE = {"copy": "copy", "setsub": "assign-msg", "setsubfrom": "assign-submsg", 
 # f(**m.mm), list(m.rm)).  The handle belongs to the group of the message it was taken from; the route is the
 # sharing step of a freeze bypass only when the mutation comes through such a handle of the frozen group itself.
 SNAP = {"snap.mm0": "map-items", "vals.mm0": "map-items", "items.mm0": "map-items", "snap.rm0": "list-iteration"}
-OPS_QUICK = ["new", "copy", "freeze", "seti", "setsub", "setsubnew", "setsubfrom", "setr", "setrfrom", "setrm", "setrmnew",
+OPS_QUICK = ["new", "copy", "freeze", "seti", "setsub", "setsubnew", "setsubfrom", "setsubunset", "setr", "setrfrom", "setrm", "setrmnew",
              "setrmfrom", "setmp", "setmpfrom", "setmm", "setmmnew", "sub.seti", "sub.setmp", "sub.setr", "r.append", "r.set0", "rm0.seti", "mp.setb",
              "mm0.seti", "view.sub", "view.r", "view.rm", "view.mp", "view.rm0", "view.mm0", "snap.mm0", "vals.mm0", "items.mm0",
              "snap.rm0", "v.append", "v.set0", "v0.seti", "v.setb", "clr.i", "clr.sub", "clr.r", "clr.rm", "clr.mp", "clr.mm"]
@@ -151,10 +151,13 @@ def shrink(ctx, reps):
     property-level class still shows (all histories in lock step, one harness call per round).
     Every surviving history has been re-executed on the real code."""
     first = run_cases(ctx, [{"id": i, "steps": r["steps"]} for i, r in enumerate(reps)], "reexec")
-    for r, x in zip(reps, first):
-        if not shows(x, r["primary"]):
-            raise vlib.MachineryError("divergence %s of %s not reproduced on re-execution" %
-                                      (r["primary"], [s["src"] for s in r["steps"]]))
+    # a divergence that does not show again when its history runs alone in a fresh process is not a counterexample (the
+    # outcome depended on something outside the history): it is set aside and reported as a machinery failure by the
+    # caller unless the same run establishes reproducible violations that are not listed findings
+    unrep = [r for r, x in zip(reps, first) if not shows(x, r["primary"])]
+    reps[:] = [r for r, x in zip(reps, first) if shows(x, r["primary"])]
+    ctx.c20_unreproduced = ["divergence %s of %s not reproduced on re-execution" % (r["primary"], [s["src"] for s in r["steps"]])
+                            for r in unrep]
     rnd = 0
     active = set(range(len(reps)))
     while active:
@@ -231,24 +234,63 @@ def hist_part(ctx):
     alld = divs + sdivs
     l2only = [d for d in alld if not any(c in L1 for c in d["div"]["classes"])]
     alld = [d for d in alld if any(c in L1 for c in d["div"]["classes"])]
-    groups = collections.OrderedDict()
-    for d in alld:
-        names = [o[0] + ("@self" if o[2] and o[2] == o[1] else "") for o in d["ops"][:d["div"]["step"] + 1]]
-        groups.setdefault("+".join(d["div"]["classes"]) + "/" + ",".join(names), []).append(d)
-    reps = []
-    for key, ds in groups.items():
-        full = [d for d in ds if d.get("steps")]
-        if not full:
-            raise vlib.MachineryError("no full record for divergence key " + key)
-        d = full[0]
-        k = d["div"]["step"] + 1
-        ops = d["ops"][:k]
-        created, root = annotate(d["ops"])
-        reps.append({"key": key, "primary": [c for c in L1 if c in d["div"]["classes"]][0], "ops": ops,
-                     "steps": [strip(s) for s in d["steps"][:k]], "created": created[:k], "root": root,
-                     "count": len(ds), "detail": d["div"].get("detail") or []})
+    def build_reps(ds_all):
+        groups = collections.OrderedDict()
+        for d in ds_all:
+            names = [o[0] + ("@self" if o[2] and o[2] == o[1] else "") for o in d["ops"][:d["div"]["step"] + 1]]
+            groups.setdefault("+".join(d["div"]["classes"]) + "/" + ",".join(names), []).append(d)
+        reps = []
+        for key, ds in groups.items():
+            full = [d for d in ds if d.get("steps")]
+            if not full:
+                raise vlib.MachineryError("no full record for divergence key " + key)
+            d = full[0]
+            k = d["div"]["step"] + 1
+            ops = d["ops"][:k]
+            created, root = annotate(d["ops"])
+            reps.append({"key": key, "primary": [c for c in L1 if c in d["div"]["classes"]][0], "ops": ops,
+                         "steps": [strip(s) for s in d["steps"][:k]], "created": created[:k], "root": root,
+                         "count": len(ds), "detail": d["div"].get("detail") or []})
+        return reps
+    reps = build_reps(alld)
     ctx.log("%d divergent histories in %d groups; re-executing and shrinking one of each" % (len(alld), len(reps)))
     reps = shrink(ctx, reps) if reps else []
+    if getattr(ctx, "c20_unreproduced", None):
+        # Some divergences did not show when their history ran alone: the histories of one process influenced each other,
+        # and a history then diverges at its first affected step, which hides what it would show by itself.  Every
+        # divergent history is therefore executed again ALONE in a process of its own (shortest first, bounded); what
+        # diverges there is reproducible by construction and is judged like any other divergence.
+        unrep = list(ctx.c20_unreproduced)
+        seen, todo = set(), []
+        for d in sorted(alld, key=lambda d: (len(d["ops"]), json.dumps(d["ops"]))):
+            key = json.dumps(d["ops"])
+            if key not in seen:
+                seen.add(key)
+                todo.append(d["ops"])
+        if len(todo) > 3000:      # an even sample over the length-sorted list
+            todo = [todo[(j * len(todo)) // 3000] for j in range(3000)]
+        import concurrent.futures
+
+        def alone(a):
+            i, ops = a
+            fin, fout = ctx.path("iso%05d.in" % i), ctx.path("iso%05d.out" % i)
+            vlib.write_ndjson(fin, [{"id": i, "ops": ops}])
+            ctx.vh(["c20-hist", "-in", fin, "-out", fout, "-par", "1"])
+            res = vlib.read_ndjson(fout)
+            os.remove(fin)
+            os.remove(fout)
+            return res[0]
+        with concurrent.futures.ThreadPoolExecutor(vlib.NCPU) as ex:
+            iso = list(ex.map(alone, enumerate(todo)))
+        iso = [x for x in iso if x.get("div") and any(c in L1 for c in x["div"]["classes"])]
+        ctx.log("%d divergences depended on earlier histories of their process; %d histories re-run alone, %d diverge alone" %
+                (len(unrep), len(todo), len(iso)))
+        # (no shrinking here: the shrinking rounds run many histories in one process, which is exactly what cannot be
+        # trusted on this tree; the histories are short, and each is executed alone once more for the report)
+        more = build_reps(iso) if iso else []
+        have = {r["key"] for r in reps}
+        reps += [r for r in more if r["key"] not in have]
+        ctx.c20_unreproduced = unrep
     bysig = collections.OrderedDict()
     for rp in reps:
         sig = signature(rp["primary"], rp["ops"], rp["created"], rp["root"])
@@ -265,6 +307,12 @@ def hist_part(ctx):
             raise vlib.MachineryError("shrunk history for %s not reproducible" % sig)
         what = "%s  =>  %s" % ("; ".join(s["src"] for s in rp["steps"]), "; ".join(x["div"]["detail"][:2]))
         ctx.violation(sig, what[:600], {"kind": "hist", "primary": rp["primary"], "steps": rp["steps"], "ops": rp["ops"]})
+    if getattr(ctx, "c20_unreproduced", None):
+        openk = {k["signature"] for k in vlib.load_known() if k.get("status") == "open" and k["property"] == "C20"}
+        if all(v[0] in openk for v in ctx.violations):
+            raise vlib.MachineryError("; ".join(ctx.c20_unreproduced[:3]))
+        ctx.notes.append("%d divergences seen in the batch runs did not show when their history ran alone (the outcome of a history "
+                         "depended on earlier histories of the same process): %s" % (len(ctx.c20_unreproduced), ctx.c20_unreproduced[:2]))
     if l2only:
         # divergences that are not property-level failures: the model's sharing rules for unfrozen content do not describe
         # this tree.  That is a machinery failure - unless the same run established property-level violations that are
